@@ -23,7 +23,7 @@ ASSUMPTIONS = ["context objects are only manipulated through the public ContextB
                "values stored in contexts are opaque (modelled as integers); NO_VALUE is never stored"]
 EXPLANATION = "proof of refinement to flattened layers on the model + per-step differential check of model vs contexts.py"
 
-NAMES = ["x", "$x", "y", "$", "$1", "", "ab", "$ab", "q_"]
+NAMES = ["x", "$x", "y", "$", "$1", "", "ab", "$ab", "q_", "$$x", "$$", "$$1", "$ x", "1"]
 FNAMES_REG = ["f", "g", "f_", "fetch_item", "fetchItem"]
 FNAMES_Q = ["f", "g", "f_", "g__", "fetch_item", "fetchItem", "fetch_item_"]
 _CAMEL_RE = __import__("re").compile(r"(?!^)_(\w)", flags=__import__("re").UNICODE)
